@@ -92,15 +92,15 @@ macro_rules! on_shape {
     };
 }
 
-on_shape!(k_fold_1, 40, check_fold([1]));
-on_shape!(k_fold_4, 40, check_fold([4]));
-on_shape!(k_fold_5, 40, check_fold([5]));
-on_shape!(k_fold_2x4, 40, check_fold([2, 4]));
-on_shape!(k_fold_3x4, 40, check_fold([3, 4]));
-on_shape!(k_fold_3x3, 40, check_fold([3, 3]));
-on_shape!(k_fold_1x3, 40, check_fold([1, 3]));
-on_shape!(k_fold_2x3x2, 40, check_fold([2, 3, 2]));
-on_shape!(k_fold_2x2x2, 40, check_fold([2, 2, 2]));
-on_shape!(k_fold_3x1x2x2, 40, check_fold([3, 1, 2, 2]));
+on_shape!(k_fold_1, 8, check_fold([1]));
+on_shape!(k_fold_4, 8, check_fold([4]));
+on_shape!(k_fold_5, 8, check_fold([5]));
+on_shape!(k_fold_2x4, 11, check_fold([2, 4]));
+on_shape!(k_fold_3x4, 15, check_fold([3, 4]));
+on_shape!(k_fold_3x3, 12, check_fold([3, 3]));
+on_shape!(k_fold_1x3, 8, check_fold([1, 3]));
+on_shape!(k_fold_2x3x2, 15, check_fold([2, 3, 2]));
+on_shape!(k_fold_2x2x2, 11, check_fold([2, 2, 2]));
+on_shape!(k_fold_3x1x2x2, 15, check_fold([3, 1, 2, 2]));
 
 playback_tests!("fold");
